@@ -1,3 +1,4 @@
+import XPathV.Lemmas.PullProofs
 import XPathV.Model.Api
 import XPathV.Lemmas.Facts
 /-!
@@ -42,5 +43,36 @@ theorem reverse_eq_reverse (d : Doc) (cfg : ECfg) (inp : Plan) (c : Ref) (ins : 
 theorem child_from_context (d : Doc) (cfg : ECfg) (a : AxisInfo) (c : Ref) :
     (sel (F := F) d cfg (.child a .context) c).map (fun o => o.map (·.r)) = .ok ((childrenM d c).filter (nodeTestM d cfg a)) := by
   simp [sel, bind, Except.bind, numbered, Except.map, test, List.map_map, Function.comp_def]
+
+/-! ## The iterator protocol on the pull machine (`Model/Pull.lean`)
+
+`PQ` is the defunctionalised model of the Go iterator structs (configuration **and** mutable state)
+for context, absolute, child, attribute, self, parent and descendant queries; `PQ.select` is one
+`Select` call, `drain` is a `MoveNext` loop.  The theorems hold for every document, context node and
+*every state*, reachable or not. -/
+
+/-- the pull machine yields exactly the sequence of the sequence-level model (nodes, `position()`
+and `depth()` counters), from any sufficiently large fuel on, and any terminated drain yields it -/
+theorem pull_refines_sequence (d : Doc) (cfg : ECfg) (cur : Ref) (p : Plan) (q : PQ) (h : PQ.ofPlan p = some q) :
+    ∃ l, sel (F := F) d cfg p cur = .ok l ∧
+      (∃ q' f0, (∀ f, f0 ≤ f → drain d cfg cur f q = some (l, q')) ∧ rem d cfg cur q' = []) ∧
+      (∀ f l' q', drain d cfg cur f q = some (l', q') → l' = l) :=
+  drain_eq_sel d cfg cur p q h
+
+/-- **MoveNext keeps returning false once it has returned false**: after a pull that reported
+exhaustion, every further pull (with any fuel) that terminates reports exhaustion again -/
+theorem exhausted_stays_exhausted (d : Doc) (cfg : ECfg) (cur : Ref) {f : Nat} {q q' : PQ}
+    (h : PQ.select d cfg cur f q = (.done, q')) :
+    rem d cfg cur q' = [] ∧
+    (∀ f' o q'', PQ.select d cfg cur f' q' = (o, q'') → o ≠ .fuel → o = .done ∧ rem d cfg cur q'' = []) ∧
+    (∃ q'' f0, (∀ f', f0 ≤ f' → PQ.select d cfg cur f' q' = (.done, q'')) ∧ rem d cfg cur q'' = []) :=
+  exhausted_stays d cfg cur h
+
+/-- the node a pull reports is the head of the remaining stream, and the position/depth counters
+a filter would read are the ones the sequence model attaches to that node -/
+theorem reported_node_and_counters (d : Doc) (cfg : ECfg) (cur : Ref) {f : Nat} {q q' : PQ} {n : Ref}
+    (h : PQ.select d cfg cur f q = (.yield n, q')) :
+    ∃ x xs, rem d cfg cur q = x :: xs ∧ x.r = n ∧ q'.position = x.pos ∧ q'.depth = x.lvl ∧ rem d cfg cur q' = xs :=
+  select_position d cfg cur h
 
 end XPathV.Theorems.C12
